@@ -181,6 +181,21 @@ def race_variant(ctx):
             fatal["race_report"] = blocks[1][:2500] if len(blocks) > 1 else ""
         ctx.failing_inputs.append(fatal)
         info["report"] = fatal["what"]
+    # second run: the status handler shared by the API and the admin multiplexer (two different request locks)
+    lines, fatal2, proc2 = exercise(ctx, exe=exe, tier="crossmux", label=" (race build, cross-mux status probe)",
+                                    extra_env={"GORACE": "halt_on_error=1 exitcode=66"}, timeout=600)
+    info["cross_mux_status_probe"] = {"exit_code": proc2.returncode}
+    for l in lines:
+        if l.get("kind") == "oracle":
+            ctx.failing_inputs.append(l)
+    if fatal2:
+        fatal2["probe"] = "cross-mux-status"
+        if "DATA RACE" in (proc2.stderr or ""):
+            blocks = (proc2.stderr or "").split("WARNING: DATA RACE")
+            fatal2["what"] = "data race reported by the Go race detector: GET / on the API port against GET /status on the admin port"
+            fatal2["race_report"] = blocks[1][:2500] if len(blocks) > 1 else ""
+        ctx.failing_inputs.append(fatal2)
+        info["cross_mux_status_probe"]["report"] = fatal2["what"]
     return info
 
 
@@ -261,8 +276,9 @@ def run(ctx):
         "ServeHTTP, handlers dispatched only inside ServeHTTP, no re-entrant ServeHTTP call)",
         "engine start-up (SetScenario/SetSolution/SetSolutionSummary) happens before the servers are started; Shutdown's model "
         "TearDown is outside the lock (reported, not covered)",
-        "the admin status handler is registered on BOTH muxes (RestServer.WithApiMux): admin.Mux.Status is guarded by two different "
-        "mutexes; it is not engine resource state and is outside this property's anchors (reported in input_distribution)",
+        "listed finding admin-status-two-locks: the admin status handler is registered on BOTH muxes (RestServer.WithApiMux), so "
+        "admin.Mux.Status is written under two different mutexes (confirmed by the race detector in the thorough tier; repair in "
+        "proposed_fixes/C16-1-admin-status-lock.diff); it is not engine resource state and lies outside this property's anchors",
     ]
     ctx.extra_trusted = [
         "translator harness/astfacts16: pattern-matches the shape of rest.MuxImpl.ServeHTTP and the handler packages; an unrecognised "
